@@ -1405,10 +1405,20 @@ Print Assumptions C05_maven_bare.
 
 (* ====== ties to the source: BEGIN (written by bin/mkties) ====== *)
 (* The Go functions named here are translated into Gallina from /repo's source on every run
-   (tools/gen/code.go -> Gen/Code/<Eco>.v); Tie/<Eco>.v, Tie/<Eco>Range.v prove each translation equal to the
-   model the theorems above speak about.  If the code changes so that a tie no longer holds,
-   this file no longer checks. *)
-From Verif.Tie Require CargoRange ConanRange GemRange HexRange NugetRange MavenRange PypiRange.
+   (tools/gen -> Gen/Code/<Eco>.v for loop-free functions, Gen/Loops/<Eco>.v for functions with
+   loops and index expressions, where a panic is Panic and a loop takes fuel); Tie/<Eco>.v,
+   Tie/<Eco>Range.v and Tie/Loops/<Eco>.v prove each translation equal to the model the theorems
+   above speak about (and, for the loop functions: no panic, termination within a linear bound).
+   If the code changes so that a tie no longer holds, this file no longer checks. *)
+Require Verif.Tie.CargoRange.
+Require Verif.Tie.ConanRange.
+Require Verif.Tie.GemRange.
+Require Verif.Tie.HexRange.
+Require Verif.Tie.MavenRange.
+Require Verif.Tie.NugetRange.
+Require Verif.Tie.PypiRange.
+Require Verif.Tie.Loops.CargoRange.
+Require Verif.Tie.Loops.ConanRange.
 Definition C05_tie_cargo_caret := Verif.Tie.CargoRange.tie_cargo_caret.
 Print Assumptions C05_tie_cargo_caret.
 Definition C05_tie_cargo_tilde := Verif.Tie.CargoRange.tie_cargo_tilde.
@@ -1437,18 +1447,42 @@ Definition C05_tie_hex_matches_model := Verif.Tie.HexRange.tie_hex_matches_model
 Print Assumptions C05_tie_hex_matches_model.
 Definition C05_tie_hex_contains := Verif.Tie.HexRange.tie_hex_contains.
 Print Assumptions C05_tie_hex_contains.
+Definition C05_tie_maven_satisfiesConstraint := Verif.Tie.MavenRange.tie_maven_satisfiesConstraint.
+Print Assumptions C05_tie_maven_satisfiesConstraint.
+Definition C05_tie_maven_contains := Verif.Tie.MavenRange.tie_maven_contains.
+Print Assumptions C05_tie_maven_contains.
 Definition C05_tie_nuget_matches := Verif.Tie.NugetRange.tie_nuget_matches.
 Print Assumptions C05_tie_nuget_matches.
 Definition C05_tie_nuget_matches_model := Verif.Tie.NugetRange.tie_nuget_matches_model.
 Print Assumptions C05_tie_nuget_matches_model.
 Definition C05_tie_nuget_contains := Verif.Tie.NugetRange.tie_nuget_contains.
 Print Assumptions C05_tie_nuget_contains.
-Definition C05_tie_maven_satisfiesConstraint := Verif.Tie.MavenRange.tie_maven_satisfiesConstraint.
-Print Assumptions C05_tie_maven_satisfiesConstraint.
-Definition C05_tie_maven_contains := Verif.Tie.MavenRange.tie_maven_contains.
-Print Assumptions C05_tie_maven_contains.
 Definition C05_tie_pypi_VersionRange_String := Verif.Tie.PypiRange.tie_pypi_VersionRange_String.
 Print Assumptions C05_tie_pypi_VersionRange_String.
 Definition C05_tie_pypi_VersionRange_Contains := Verif.Tie.PypiRange.tie_pypi_VersionRange_Contains.
 Print Assumptions C05_tie_pypi_VersionRange_Contains.
+Definition C05_tie_loops_cargo_countVersionComponents := Verif.Tie.Loops.CargoRange.tie_loops_cargo_countVersionComponents.
+Print Assumptions C05_tie_loops_cargo_countVersionComponents.
+Definition C05_tie_loops_cargo_countVersionComponents_range := Verif.Tie.Loops.CargoRange.loops_cargo_countVersionComponents_range.
+Print Assumptions C05_tie_loops_cargo_countVersionComponents_range.
+Definition C05_tie_compare_closed := Verif.Tie.Loops.CargoRange.compare_closed.
+Print Assumptions C05_tie_compare_closed.
+Definition C05_tie_cargo_caret_closed := Verif.Tie.Loops.CargoRange.tie_cargo_caret_closed.
+Print Assumptions C05_tie_cargo_caret_closed.
+Definition C05_tie_cargo_tilde_closed := Verif.Tie.Loops.CargoRange.tie_cargo_tilde_closed.
+Print Assumptions C05_tie_cargo_tilde_closed.
+Definition C05_tie_cargo_satisfiesConstraint_closed := Verif.Tie.Loops.CargoRange.tie_cargo_satisfiesConstraint_closed.
+Print Assumptions C05_tie_cargo_satisfiesConstraint_closed.
+Definition C05_tie_cargo_satisfiesConstraint_counted := Verif.Tie.Loops.CargoRange.tie_cargo_satisfiesConstraint_counted.
+Print Assumptions C05_tie_cargo_satisfiesConstraint_counted.
+Definition C05_tie_loops_conan_tildeMatch := Verif.Tie.Loops.ConanRange.tie_loops_conan_tildeMatch.
+Print Assumptions C05_tie_loops_conan_tildeMatch.
+Definition C05_tie_loops_conan_caretMatch := Verif.Tie.Loops.ConanRange.tie_loops_conan_caretMatch.
+Print Assumptions C05_tie_loops_conan_caretMatch.
+Definition C05_tie_tildeMatch_total_model := Verif.Tie.Loops.ConanRange.tildeMatch_total_model.
+Print Assumptions C05_tie_tildeMatch_total_model.
+Definition C05_tie_caretMatch_total_model := Verif.Tie.Loops.ConanRange.caretMatch_total_model.
+Print Assumptions C05_tie_caretMatch_total_model.
+Definition C05_tie_conan_contains_closed := Verif.Tie.Loops.ConanRange.tie_conan_contains_closed.
+Print Assumptions C05_tie_conan_contains_closed.
 (* ====== ties to the source: END ====== *)
